@@ -304,10 +304,15 @@ def _int_ty(name):
 
 def s_int_from(ex, st, callee, args, argv, f):
     """<T as From<S>>::from / <S as Into<T>>::into on primitive integers (lossless widening), <char as From<u8>>"""
-    m = re.match(r"^<(char|[iu](?:8|16|32|64|128|size)) as (?:std::convert::)?(From|Into)<([iu](?:8|16|32|64|128|size)|char)>>::(?:from|into)$", callee)
+    m = re.match(r"^<(char|bool|[iu](?:8|16|32|64|128|size)) as (?:std::convert::)?(From|Into)<([iu](?:8|16|32|64|128|size)|char|bool)>>::(?:from|into)$", callee)
     a, kind, b = m.group(1), m.group(2), m.group(3)
     dst, src = (a, b) if kind == "From" else (b, a)
     v = ex.deref_val(st, argv[0]) if isinstance(argv[0], RefV) else argv[0]
+    if src == "bool":
+        if z3.is_bool(v):
+            w = _int_ty(dst)[1]
+            return ok1(st, z3.If(v, z3.BitVecVal(1, w), z3.BitVecVal(0, w)))
+        raise Unsupported("From<bool> on %r" % (v,))
     if not z3.is_bv(v):
         raise Unsupported("integer From on %r" % (v,))
     dw = 32 if dst == "char" else _int_ty(dst)[1]
@@ -451,6 +456,61 @@ def s_option_unwrap_or(ex, st, callee, args, argv, f):
     return outs
 
 
+def s_option_unwrap_or_default(ex, st, callee, args, argv, f):
+    m = re.match(r"^Option::<([iu](?:8|16|32|64|size)|bool)>::unwrap_or_default$", callee)
+    if not m:
+        raise Unsupported("unwrap_or_default for %s" % callee)
+    dflt = z3.BoolVal(False) if m.group(1) == "bool" else z3.BitVecVal(0, _int_ty(m.group(1))[1])
+    return s_option_unwrap_or(ex, st, callee, args, [argv[0], dflt], f)
+
+
+def s_option_unwrap_or_else(ex, st, callee, args, argv, f):
+    v, clo = argv[0], argv[1]
+    if not (isinstance(v, EnumV) and v.ety == "Option"):
+        raise Unsupported("Option::unwrap_or_else on %r" % (v,))
+    outs = []
+    for s2, k in _split_disc(ex, st, v):
+        if k == 1:
+            outs.append(Outcome(s2, ret=v.payloads[1][0]))
+        else:
+            outs += _closure_results(ex, s2, clo, [], lambda r: r)
+    return outs
+
+
+def s_option_map_or(ex, st, callee, args, argv, f):
+    v, dflt, clo = argv[0], argv[1], argv[2]
+    if not (isinstance(v, EnumV) and v.ety == "Option"):
+        raise Unsupported("Option::map_or on %r" % (v,))
+    outs = []
+    for s2, k in _split_disc(ex, st, v):
+        if k == 0:
+            outs.append(Outcome(s2, ret=dflt))
+        else:
+            outs += _closure_results(ex, s2, clo, [v.payloads[1][0]], lambda r: r)
+    return outs
+
+
+def s_option_is_some_and(ex, st, callee, args, argv, f):
+    v, clo = argv[0], argv[1]
+    if not (isinstance(v, EnumV) and v.ety == "Option"):
+        raise Unsupported("Option::is_some_and on %r" % (v,))
+    outs = []
+    for s2, k in _split_disc(ex, st, v):
+        if k == 0:
+            outs.append(Outcome(s2, ret=z3.BoolVal(False)))
+        else:
+            outs += _closure_results(ex, s2, clo, [v.payloads[1][0]], lambda r: r)
+    return outs
+
+
+def s_option_copied(ex, st, callee, args, argv, f):
+    v = argv[0]
+    if not (isinstance(v, EnumV) and v.ety == "Option"):
+        raise Unsupported("Option::copied on %r" % (v,))
+    pl = {k: [ex.deref_val(st, x) for x in xs] for k, xs in v.payloads.items()}
+    return ok1(st, EnumV("Option", v.disc, pl))
+
+
 def s_result_map(ex, st, callee, args, argv, f):
     v, clo = argv[0], argv[1]
     if not (isinstance(v, EnumV) and v.ety == "Result"):
@@ -541,11 +601,33 @@ def s_slice_iter_next(ex, st, callee, args, argv, f):
     return ok1(st, EnumV("Option", d, {1: [item]}))
 
 
+def s_panic_call(ex, st, callee, args, argv, f):
+    msg = "explicit panic"
+    if argv and isinstance(argv[0], Opaque) and argv[0].tag.startswith("str:"):
+        msg = argv[0].tag[4:].strip('"')
+    return [Outcome(st, panic=Panic(msg, f.name if f is not None else "?"))]
+
+
+def s_ord_cmp(ex, st, callee, args, argv, f):
+    a, b = ex.deref_val(st, argv[0]), ex.deref_val(st, argv[1])
+    if not (z3.is_bv(a) and z3.is_bv(b)):
+        raise Unsupported("Ord::cmp on %r, %r" % (a, b))
+    m = re.search(r"<&*([iu](?:8|16|32|64|size)) as (?:Partial)?Ord>::(?:partial_)?cmp$", callee)
+    signed = m.group(1).startswith("i")
+    lt = (a < b) if signed else z3.ULT(a, b)
+    d = z3.If(lt, z3.BitVecVal(0, 64), z3.If(a == b, z3.BitVecVal(1, 64), z3.BitVecVal(2, 64)))
+    o = EnumV("Ordering", d, {})
+    if "partial_cmp" in callee:
+        return ok1(st, EnumV("Option", 1, {1: [o]}))
+    return ok1(st, o)
+
+
 def s_identity(ex, st, callee, args, argv, f):
     return ok1(st, argv[0])
 
 
 COMMON = [
+    (r"^(?:core::panicking::|std::rt::)?(?:panic|panic_fmt|panic_display::<.*>|panic_explicit|unreachable_display::<.*>|begin_panic::<.*>)$", s_panic_call),
     (r"as Try>::branch$", s_try_branch),
     (r"as FromResidual<.*>>::from_residual$", s_from_residual),
     (r"^<Option<u8> as PartialEq>::ne$", s_option_u8_ne),
@@ -577,8 +659,9 @@ COMMON = [
     (r"^core::num::<impl u(?:8|16|32|64|size)>::checked_add$", int_method("checked_add")),
     (r"^core::num::<impl u(?:8|16|32|64|size)>::abs_diff$", int_method("abs_diff")),
     (r"^<&*[iu](?:8|16|32|64|size) as PartialOrd>::(?:le|lt|ge|gt)$", s_partial_ord),
+    (r"^<&*[iu](?:8|16|32|64|size) as Ord>::cmp$|^<&*[iu](?:8|16|32|64|size) as PartialOrd>::partial_cmp$", s_ord_cmp),
     (r"^<u8 as Clone>::clone$|^<Option<u8> as Clone>::clone$", lambda ex, st, c, a, v, f: ok1(st, ex.deref_val(st, v[0]))),
-    (r"^<(?:char|[iu](?:8|16|32|64|128|size)) as (?:std::convert::)?(?:From|Into)<(?:[iu](?:8|16|32|64|128|size)|char)>>::(?:from|into)$", s_int_from),
+    (r"^<(?:char|bool|[iu](?:8|16|32|64|128|size)) as (?:std::convert::)?(?:From|Into)<(?:[iu](?:8|16|32|64|128|size)|char|bool)>>::(?:from|into)$", s_int_from),
     (r"^<[iu](?:8|16|32|64|size) as (?:std::convert::)?(?:TryFrom|TryInto)<[iu](?:8|16|32|64|size)>>::(?:try_from|try_into)$", s_int_try_from),
     (r"^Option::<.*>::map::<", s_option_map),
     (r"^Option::<.*>::and_then::<", s_option_and_then),
@@ -586,6 +669,11 @@ COMMON = [
     (r"^Option::<.*>::ok_or::<", s_option_ok_or),
     (r"^Option::<.*>::ok_or_else::<", s_option_ok_or_else),
     (r"^Option::<.*>::unwrap_or$", s_option_unwrap_or),
+    (r"^Option::<.*>::unwrap_or_default$", s_option_unwrap_or_default),
+    (r"^Option::<.*>::unwrap_or_else::<", s_option_unwrap_or_else),
+    (r"^Option::<.*>::map_or::<", s_option_map_or),
+    (r"^Option::<.*>::is_some_and::<", s_option_is_some_and),
+    (r"^Option::<&.*>::(?:copied|cloned)$", s_option_copied),
     (r"^(?:std::result::)?Result::<.*>::map::<", s_result_map),
     (r"^(?:std::result::)?Result::<.*>::ok$", s_result_ok),
     (r"^(?:std::result::)?Result::<.*>::is_ok$", s_result_is(0)),
